@@ -550,9 +550,19 @@ def calls_batch(cf, calls):
 def validate_calls(report, batches, tag):
     if not batches:
         return True
+    # the (large, dense) tables of a configuration are written once
+    cfgs, index, slim = [], {}, []
+    for b in batches:
+        key = (b["kind"], b["max_count"], b["NR"], len(b["Val"]), len(b["P"]))
+        if key not in index:
+            cfgs.append({k: b[k] for k in ("UMax", "NR", "MaxCount", "Val", "P")})
+            index[key] = len(cfgs)
+        elif key[0] == "log8" or b["max_count"] == "grid":
+            pass
+        slim.append({"c": index[key], "calls": b["calls"]})
     path = os.path.join(workdir(), "logcalls_%s.json" % tag)
     with open(path, "w") as f:
-        json.dump(batches, f)
+        json.dump({"cfgs": cfgs, "batches": slim}, f)
     cfg = write_cfg("calls_%s.cfg" % tag, CALLS_CFG, [], [])
     r = run_tlc("Trace_LogCalls", cfg, env={"TRACE_FILE": path}, workers=16, tag=tag)
     os.unlink(path)
